@@ -56,6 +56,39 @@ class Ptr:
     def __bool__(self): return True
 
 
+class Arr:
+    """a local array of scalars (a look-up table built by the function itself); pointers into it are (array, offset)"""
+    def __init__(self, n, off=0, items=None):
+        self.items = items if items is not None else ['UNINIT'] * n
+        self.off = off
+
+    def __add__(self, n):
+        return Arr(0, self.off + int(n), self.items)
+    __radd__ = __add__
+
+    def __sub__(self, o):
+        if isinstance(o, Arr):
+            return self.off - o.off
+        return Arr(0, self.off - int(o), self.items)
+
+    def __bool__(self): return True
+
+    def slot(self, i, what):
+        o = self.off + int(i)
+        if not (0 <= o < len(self.items)):
+            raise Unsupported('%s out of bounds (element %d of a local array of %d)' % (what, o, len(self.items)))
+        return o
+
+    def at(self, i=0):
+        v = self.items[self.slot(i, 'read')]
+        if v == 'UNINIT':
+            raise Unsupported('read of an element of a local array outside its initialised part (element %d)' % (self.off + int(i)))
+        return v
+
+    def put(self, i, v):
+        self.items[self.slot(i, 'store')] = v
+
+
 class Buf:
     """the mutable XalanDOMString a GetCachedString guard hands out"""
     def __init__(self):
@@ -94,13 +127,13 @@ class SMachine(Machine):
         k = e['k']
         if k == 'Un' and e['op'] == '*':
             v = self.ev(e['e'])
-            return v.at() if isinstance(v, Ptr) else v
+            return v.at() if isinstance(v, (Ptr, Arr)) else v
         if k == 'Index':
             base = strip_casts(e['b'])
             if base.get('k') == 'Ref' and base.get('d') in ('global', 'staticlocal') or base.get('k') == 'Member' and base.get('field'):
                 return super().ev(e)
             b = self.ev(e['b'])
-            if isinstance(b, Ptr):
+            if isinstance(b, (Ptr, Arr)):
                 return b.at(int(self.ev(e['i'])))
         if k == 'Cast' and e.get('ck') in ('PointerToBoolean',):
             v = self.ev(e['e'])
@@ -119,6 +152,24 @@ class SMachine(Machine):
                 return float(a) - float(b)
             raise Unsupported('subtraction of %r and %r' % (a, b))
         return super().ev(e)
+
+
+    def exec(self, s):
+        if s['k'] == 'Decl':
+            import re
+            for v in s['vars']:
+                mt = re.search(r'\[(\d+)\]\s*$', v.get('ty') or '')
+                if mt and v.get('init') is None:
+                    self.env[v['id']] = Arr(int(mt.group(1)))
+        return super().exec(s)
+
+    def assign(self, t, v):
+        if t.get('k') == 'Index' or (t.get('k') == 'Un' and t.get('op') == '*'):
+            b = self.ev(t['b'] if t['k'] == 'Index' else t['e'])
+            if isinstance(b, Arr):
+                b.put(int(self.ev(t['i'])) if t['k'] == 'Index' else 0, v)
+                return
+        return super().assign(t, v)
 
 
 class StrWorld:
@@ -182,6 +233,15 @@ class StrWorld:
                 a, b = m.ev(c['args'][0]), m.ev(c['args'][1])
                 return int((a == b) == (op == '=='))
             return NotImplemented
+        if k == 'Call' and n in ('fill', 'fill_n') and len(c['args']) == 3:
+            b, e2, v = m.ev(c['args'][0]), m.ev(c['args'][1]), m.ev(c['args'][2])
+            if isinstance(b, Arr):
+                cnt = (e2 - b) if n == 'fill' else int(e2 if n == 'fill_n' else 0)
+                if n == 'fill_n':
+                    cnt, v = int(e2), v
+                for i in range(int(cnt)):
+                    b.put(i, v)
+                return 0
         if k == 'Ctor':
             if 'GetCachedString' in cls or 'GetAndReleaseCachedString' in cls:
                 return Buf()
